@@ -100,6 +100,22 @@ def main():
         )
         json.dump(meta, open(os.path.join(d, "meta.json"), "w"), indent=1)
     print("seeded entries:", len(os.listdir(ROOT)))
+    # markdown table for DESIGN.md §10.3
+    rows = []
+    for sid in sorted(os.listdir(ROOT)):
+        mp = os.path.join(ROOT, sid, "meta.json")
+        if not os.path.exists(mp):
+            continue
+        m = json.load(open(mp))
+        own = m["breaks_property"]
+        caught = m["detection"]["caught_by"]
+        own_rules = (m["detection"]["per_check"].get(own) or {}).get("rules") or []
+        rows.append("| `%s` | %s | %s | %s | %s |" % (
+            sid, m["change"].replace("|", "/"), "**yes**" if own in caught else "NO",
+            ", ".join(r.replace("rule=", "") for r in own_rules[:3]), ", ".join(c for c in caught if c != own) or "-"))
+    with open("/verif/seeded/TABLE.md", "w") as f:
+        f.write("| seeded change | what it does | caught by its own property's check | rules that fired there | also caught by |\n|---|---|---|---|---|\n")
+        f.write("\n".join(rows) + "\n")
 
 
 if __name__ == "__main__":
